@@ -1,6 +1,6 @@
 (* C01 -- property theorems only. *)
 From Coq Require Import String.
-From CppcmsV Require Import Base.Tac Base.Sweep C15.Defs C01.Defs C01.HttpSpec C01.HttpSeg C01.Chunked C01.ChunkedProofs C01.Enc C01.EncProofs C01.EncProofs2 C01.Conn C01.ConnProofs C01.Examples C01.Proofs Base.CSem C01.Link gen.Gen_C01.
+From CppcmsV Require Import Base.Tac Base.Sweep C15.Defs C01.Defs C01.HttpSpec C01.HttpSeg C01.Chunked C01.ChunkedProofs C01.Enc C01.EncProofs C01.EncProofs2 C01.Conn C01.ConnProofs C01.HttpEnc C01.HttpEncProofs C01.HttpView C01.Pool C01.PoolProofs C01.Examples C01.Proofs Base.CSem C01.Link gen.Gen_C01.
 Local Open Scope N_scope.
 
 (* ---------------------------------------------------------------------------------------------------------
@@ -240,6 +240,142 @@ Qed.
 Theorem env_values_are_c_strings : forall s, forallb (fun c => negb (c =? 0)) (cstr s) = true.
 Proof. exact cstr_no_nul. Qed.
 Print Assumptions env_values_are_c_strings.
+
+(* ---------------------------------------------------------------------------------------------------------
+   5b. HTTP decode inverts encode.  line_ok = a complete header line in the parser's own lexical classes (quoted strings
+       and comments closed, LWS continuation lines allowed); the reader delivers exactly one header per line, in order,
+       whatever follows the empty line is left unread. *)
+Theorem http_head_lines :
+  forall ls p r rest, st p = Idle -> brc p = 0 -> Forall line_ok ls ->
+  brun p r (enc_head ls ++ rest) =
+  match apply_headers (map line_hdr ls) r with None => BError | Some r' => BFinished r' rest end.
+Proof. exact brun_head. Qed.
+Print Assumptions http_head_lines.
+
+(* lines without CR, double quote and opening parenthesis are delivered verbatim *)
+Theorem http_plain_line_verbatim : forall l, hd_not_ws l -> plain l -> line_ok l /\ line_hdr l = l.
+Proof. exact plain_line_ok. Qed.
+Print Assumptions http_plain_line_verbatim.
+
+(* request line + header lines (token names, plain values): method, URI, protocol and the CGI variables
+   CONTENT_LENGTH / CONTENT_TYPE / HTTP_<NAME> are exactly those the peer encoded, in order *)
+Theorem http_decode_encode :
+  forall m u pr hs rest,
+  req_line_ok m u pr -> Forall header_ok hs ->
+  brun pst0 hreq0 (enc_head (req_line m u pr :: map hdr_line hs) ++ rest)
+  = BFinished (fold_left add_hdr hs (mkhreq true m u pr [(s_SERVER_PROTOCOL, pr)] 0%Z [])) rest.
+Proof. exact http_decode_enc. Qed.
+Print Assumptions http_decode_encode.
+
+Example http_decode_encode_nonvacuous :
+  req_line_ok (bs "POST"%string) (bs "/sync/a%20b?x=1"%string) (bs "HTTP/1.1"%string) /\ Forall header_ok ex_hs /\
+  (exists r, brun pst0 hreq0 (ex_head ++ bs "abcGE"%string) = BFinished r (bs "abcGE"%string) /\
+             clen r = 3%Z /\ ctype r = bs "text/plain"%string /\ env_get (bs "HTTP_X_FOLD"%string) (env r) = Some (bs "a b"%string)) /\
+  line_ok ex_folded_line /\ line_hdr ex_folded_line = ex_folded_hdr /\ ex_folded_line <> ex_folded_hdr.
+Proof.
+  split; [apply req_line_okb_ok; vm_compute; reflexivity|].
+  split; [apply headers_okb_ok; vm_compute; reflexivity|].
+  split; [eexists; split; [vm_compute; reflexivity|]; split; [vm_compute; reflexivity|]; split; vm_compute; reflexivity|].
+  split; [apply line_okb_ok; vm_compute; reflexivity|].
+  split; [vm_compute; reflexivity|vm_compute; intros H; discriminate H].
+Qed.
+
+(* ---------------------------------------------------------------------------------------------------------
+   5c. The three front-ends agree.  For a well-formed HTTP request (token method and header names, plain values, unique
+       header names, header block within the cap, Content-Length = |body|) the embedded server delivers the view v and
+       the body; v is exactly the CGI view of its own environment E = v_env v (what getenv shows); and an SCGI or
+       FastCGI peer that sends E (FastCGI: in any record layout) makes the application observe the same E, the same
+       view and the same body. *)
+Theorem frontends_agree :
+  forall names m u pr hs body v,
+  req_line_ok m u pr -> Forall header_ok hs -> NoDup (names_of hs) ->
+  process_request names (fold_left add_hdr hs (http_req0 m u pr)) = POk v ->
+  (0 <= v_clen v <= cl_limit)%Z -> Z.to_nat (v_clen v) = length body ->
+  N.of_nat (length (http_wire m u pr hs)) <= 16385 ->
+  env_ok (v_env v) ->
+  (forall f rest, http_stream (S f) names (http_wire m u pr hs ++ body ++ rest)
+                  = IReq v body :: match rest with [] => [] | l => http_stream f names l end)
+  /\ view_of_env (v_env v) = v
+  /\ (forall num, ~ In 58 num -> (length num <= 15)%nat -> atoi num = Z.of_nat (length (enc_scgi_blob (v_env v))) ->
+                  N.of_nat (length (enc_scgi_blob (v_env v))) <= 16384 ->
+                  (16 < length num + 2 + length (enc_scgi_blob (v_env v)))%nat ->
+                  scgi_decode (enc_scgi num (v_env v) body) = SOk (v_env v) body)
+  /\ (forall rid flags pad0 pl pend sl send rest,
+        rid < 65536 -> pad0 < 256 -> pend < 256 -> send < 256 -> flags < 256 -> layout_ok pl -> layout_ok sl ->
+        layout_data pl = enc_pairs (v_env v) -> N.of_nat (length (enc_pairs (v_env v))) < 16384 -> layout_data sl = body ->
+        fcgi_decode (enc_fcgi rid flags pad0 pl pend sl send ++ rest) = FOk (N.odd flags) (v_env v) body rest).
+Proof. exact frontends_agree_lemma. Qed.
+Print Assumptions frontends_agree.
+
+(* the accessors of the HTTP front-end (method, script name, path info, query string, content type and length) are
+   those any front-end reads back from the environment, for every request the reader accepts with unique names *)
+Theorem http_view_is_cgi_view :
+  forall names m u pr hs v,
+  NoDup (names_of hs) -> process_request names (fold_left add_hdr hs (http_req0 m u pr)) = POk v ->
+  view_of_env (v_env v) = v.
+Proof. exact http_req_view. Qed.
+Print Assumptions http_view_is_cgi_view.
+
+(* k well-formed requests back to back on one kept-alive HTTP connection are all delivered as encoded; together with
+   http_keepalive_conn_refines_stream: under every segmentation *)
+Theorem http_keepalive_faithful :
+  forall names qs fuel,
+  Forall (hq_ok names) qs -> qs <> [] -> (length qs <= fuel)%nat ->
+  http_stream fuel names (flat_map hq_wire qs) = map (fun q => IReq (hq_v q) (hq_body q)) qs.
+Proof. exact http_keepalive_lemma. Qed.
+Print Assumptions http_keepalive_faithful.
+
+Example frontends_agree_nonvacuous :
+  NoDup (names_of ex_hs) /\
+  process_request ex_names (fold_left add_hdr ex_hs (http_req0 (bs "POST"%string) (bs "/sync/a%20b?x=1"%string) (bs "HTTP/1.1"%string))) = POk ex_v /\
+  (0 <= v_clen ex_v <= cl_limit)%Z /\ Z.to_nat (v_clen ex_v) = length (bs "abc"%string) /\
+  N.of_nat (length (http_wire (bs "POST"%string) (bs "/sync/a%20b?x=1"%string) (bs "HTTP/1.1"%string) ex_hs)) <= 16385 /\
+  env_ok (v_env ex_v) /\
+  v_script ex_v = bs "/sync"%string /\ v_path_info ex_v = bs "/a b"%string /\ v_query ex_v = bs "x=1"%string /\
+  v_ctype ex_v = bs "text/plain"%string /\
+  hq_ok ex_names ex_q1 /\ hq_ok ex_names ex_q2 /\
+  http_conn 5 ex_names [firstn 30 (hq_wire ex_q1 ++ hq_wire ex_q2); skipn 30 (hq_wire ex_q1 ++ hq_wire ex_q2)]
+  = [IReq (hq_v ex_q1) (hq_body ex_q1); IReq (hq_v ex_q2) (hq_body ex_q2)].
+Proof.
+  split; [apply nodupb_ok; vm_compute; reflexivity|].
+  split; [vm_compute; reflexivity|].
+  split; [vm_compute; split; intros H; discriminate H|].
+  split; [vm_compute; reflexivity|]. split; [vm_compute; intros H; discriminate H|].
+  split; [apply env_okb_ok; vm_compute; reflexivity|].
+  do 4 (split; [vm_compute; reflexivity|]).
+  split.
+  { split; [apply req_line_okb_ok; vm_compute; reflexivity|]. split; [apply headers_okb_ok; vm_compute; reflexivity|].
+    split; [vm_compute; reflexivity|]. split; [vm_compute; split; intros H; discriminate H|].
+    split; [vm_compute; reflexivity|vm_compute; intros H; discriminate H]. }
+  split.
+  { split; [apply req_line_okb_ok; vm_compute; reflexivity|]. split; [apply headers_okb_ok; vm_compute; reflexivity|].
+    split; [vm_compute; reflexivity|]. split; [vm_compute; split; intros H; discriminate H|].
+    split; [vm_compute; reflexivity|vm_compute; intros H; discriminate H]. }
+  vm_compute. reflexivity.
+Qed.
+
+(* ---------------------------------------------------------------------------------------------------------
+   5d. string_pool (private/string_map.h), the arena of the environment strings: for EVERY sequence of alloc / add /
+       clear every allocation lies inside the page it was carved from, and clear() (called between the requests of a
+       kept-alive connection) returns the pool to its initial state. *)
+Theorem pool_in_bounds :
+  forall ops p, inv p -> Forall (fun t => let '(i, off, n, cap) := t in off + n <= cap) (pool_run ops p).
+Proof. exact pool_in_bounds_lemma. Qed.
+Print Assumptions pool_in_bounds.
+
+Theorem pool_initial_invariant : inv pool0.
+Proof. exact inv0. Qed.
+Print Assumptions pool_initial_invariant.
+
+Theorem pool_clear_is_initial : forall p, inv p -> clear p = pool0.
+Proof. exact clear_is_initial. Qed.
+Print Assumptions pool_clear_is_initial.
+
+Example pool_nonvacuous :
+  pool_run [OClear; OAlloc 10; OAlloc 10; OAlloc 1501; OClear; OAlloc 2000; OAlloc 1024; OAlloc 1024; OAlloc 1] pool0
+  = [(0%nat, 0, 10, 2048); (0%nat, 10, 10, 2048); (1%nat, 0, 1501, 1501); (1%nat, 0, 2000, 2000);
+     (0%nat, 0, 1024, 2048); (0%nat, 1024, 1024, 2048); (2%nat, 0, 1, 2048)].
+Proof. vm_compute. reflexivity. Qed.
 
 (* ---------------------------------------------------------------------------------------------------------
    6. Tie to the source: leaf predicates regenerated from private/http_protocol.h by tools/cxx2v.py on every run
